@@ -6,8 +6,10 @@ import (
 	"fmt"
 	"os"
 	"os/exec"
+	"runtime"
 	"runtime/debug"
 	"strings"
+	"sync/atomic"
 	"syscall"
 
 	"verif/simrt"
@@ -57,6 +59,8 @@ type schedObs struct {
 	Kinds      []string
 	SoloSteps  []uint64
 	RaceReport string
+	Stalled    bool // finished free-running: a task blocked on a parked task
+	Foreign    bool // finished without preemption: the library started goroutines of its own
 }
 
 type taskEnv struct {
@@ -85,7 +89,35 @@ type sharedWalkState struct {
 // soloTask is the index of the task being run alone (scheduler inactive).
 var soloTask int
 
+// taskGoids[i] is the goroutine id of task i of the scheduled run in progress.
+// Only consulted when the run has gone free-running (simrt.FreeRunning), where
+// "the task the scheduler released last" no longer identifies the caller.
+var taskGoids [simrt.MaxTasks]atomic.Int64
+
+func goid() int64 {
+	var buf [64]byte
+	n := runtime.Stack(buf[:], false)
+	// "goroutine 123 [running]:..."
+	var id int64
+	for _, c := range buf[len("goroutine "):n] {
+		if c < '0' || c > '9' {
+			break
+		}
+		id = id*10 + int64(c-'0')
+	}
+	return id
+}
+
 func curTask() int {
+	if simrt.FreeRunning() {
+		g := goid()
+		for i := range taskGoids {
+			if taskGoids[i].Load() == g {
+				return i
+			}
+		}
+		return soloTask
+	}
 	if t := simrt.Current(); t >= 0 {
 		return t
 	}
@@ -316,7 +348,10 @@ func checkC19(s *Scenario) (*Failure, *schedObs) {
 	for i := range s.Tasks {
 		i := i
 		body := taskBody(env, &s.Tasks[i])
-		bodies[i] = func() { results[i] = protect(body) }
+		bodies[i] = func() {
+			taskGoids[i].Store(goid())
+			results[i] = protect(body)
+		}
 		obs.Kinds = append(obs.Kinds, s.Tasks[i].Kind)
 	}
 	taskBudget := uint64(0)
@@ -325,7 +360,9 @@ func checkC19(s *Scenario) (*Failure, *schedObs) {
 			taskBudget = b
 		}
 	}
+	stalls0, foreign0 := simrt.Stalls(), simrt.ForeignRuns()
 	res := simrt.Run(bodies, s.Switches, taskBudget)
+	obs.Stalled, obs.Foreign = simrt.Stalls() > stalls0, simrt.ForeignRuns() > foreign0
 	obs.Switches = res.Switches
 	obs.Triples = res.Preempt
 	obs.TaskSteps = res.TaskSteps
